@@ -32,6 +32,13 @@ def imports(tree, skip_type_checking=True):
                     for b in ch.orelse:
                         walk(ast.Module(body=[b], type_ignores=[]), q, t)
                     continue
+                if test in ("__name__ == '__main__'", "'__main__' == __name__"):
+                    # runs only when the file is executed as a script, never when its text is shipped through remote_exec (__name__ == '__channelexec__')
+                    for b in ch.body:
+                        walk(ast.Module(body=[b], type_ignores=[]), (q + "." if q else "") + "<main-guard>", t)
+                    for b in ch.orelse:
+                        walk(ast.Module(body=[b], type_ignores=[]), q, t)
+                    continue
             if isinstance(ch, ast.Import):
                 for al in ch.names:
                     out.append((al.name, [al.asname or al.name], ch.lineno, t, q))
